@@ -343,7 +343,7 @@ class Builder:
         if k == "mod":
             return A[0] % A[1]
         if k == "xsub":
-            return A[0].op("-")(A[1])
+            return A[0].op("-", precedence=7)(A[1])        # op() must be told the precedence of its operator (default 0 = lowest)
         if k == "xmul":
             return A[0].op("*", precedence=8)(A[1])
         if k == "xadd":
